@@ -242,6 +242,33 @@ class OsShim(types.ModuleType):
         return real_os.remove(path)
 
 
+class _WriteProxy:
+    """value file being written: every chunk and the close are yield / kill points"""
+
+    def __init__(self, h, rec, f):
+        self._h, self._rec, self._f = h, rec, f
+
+    def write(self, data):
+        self._rec.before('fchunk', self._f)
+        return self._h.write(data)
+
+    def close(self):
+        self._rec.before('fclose', self._f)
+        return self._h.close()
+
+    def __enter__(self):
+        self._h.__enter__()
+        return self
+
+    def __exit__(self, *exc):
+        if exc[0] is None:
+            self._rec.before('fclose', self._f)
+        return self._h.__exit__(*exc)
+
+    def __getattr__(self, name):
+        return getattr(self._h, name)
+
+
 def make_open(rec):
     def shim_open(path, mode='r', *args, **kwargs):
         p = str(path)
@@ -255,6 +282,8 @@ def make_open(rec):
                     rec.add('FW%d!' % f)
                     raise
                 rec.add('FW%d' % f)
+                if rec.on_action is not None:
+                    return _WriteProxy(h, rec, f)
                 return h
             rec.before('fr', f)
             rec.add('FR%d' % f)
